@@ -40,6 +40,11 @@ func c20Locations(c *vk.Ctx, rng *rand.Rand) int {
 		"/a/c.crl",
 		"/with space and ?query=../../x&y=%00",
 		"/back\\slash\\..\\x.crl",
+		// one path, three resources (a CA that publishes partitions or deltas under one path)
+		"/partitioned.crl",
+		"/partitioned.crl?Partition=1",
+		"/partitioned.crl?Partition=2",
+		"/Partitioned.crl",
 	}
 	// two spellings that are equal after URL normalisation (scheme case)
 	equalPairs := [][2]string{{org.URL + "/same.crl", strings.Replace(org.URL, "http://", "HTTP://", 1) + "/same.crl"}}
@@ -151,6 +156,34 @@ func c20Locations(c *vk.Ctx, rng *rand.Rand) int {
 		w.Destroy()
 	}
 	return n
+}
+
+// c20FailedSwapLeftover: "after every load, successful or not, no temporary artefacts remain" - also after a first load that fails
+// at its very last step because the storage layer cannot put the staged store in place (here: the entry's directory has vanished
+// from work_dir, a real fault, nothing injected).
+func c20FailedSwapLeftover(c *vk.Ctx) int {
+	rw, err := newRepoWorld(true, "verify", false, c.Seed*23)
+	if err != nil {
+		c.Infra("repo world: %v", err)
+	}
+	defer rw.close()
+	rw.serve("garbage", nil)
+	rw.w.HandshakeTimeout(rw.chains["driver"], 60*time.Second) // the entry and its directory exist now, nothing is loaded
+	ents, _ := os.ReadDir(rw.w.WorkDir)
+	for _, e := range ents {
+		if e.IsDir() {
+			os.RemoveAll(filepath.Join(rw.w.WorkDir, e.Name()))
+		}
+	}
+	rw.serve("good", []string{"x"})
+	r := rw.w.HandshakeTimeout(rw.chains["driver"], 120*time.Second)
+	l := rw.w.Listing()
+	c.Eval("failed-swap-leftover|disk")
+	if len(l.Temps) > 0 {
+		c.Violation("disk:temporary-artefacts-remain:after=first-load-whose-swap-failed", fmt.Sprintf("the first load failed when its staged store was to be moved in (the entry's directory had vanished); afterwards work_dir still contains %v", l.Temps),
+			map[string]any{"handshake": r, "listing": l})
+	}
+	return 1
 }
 
 func minInt(a, b int) int {
